@@ -84,6 +84,11 @@ def impl(case):
             src = cls(Path(src_dir) / "rec", "r+")
             src.discard_patch()
             tags.append("merge-after-discard")
+        elif pre == "live":
+            # a handle that stays in use after the merge: r+ (adds an empty patch), commit it
+            src = cls(Path(src_dir) / "rec", "r+")
+            src.commit_patch()
+            tags.append("merge-from-live-handle")
         else:
             src = cls(Path(src_dir) / "rec", "r")
         if pre == "failed-commit":
@@ -113,7 +118,31 @@ def impl(case):
             oracle.append(dict(kind="source-meta-changed-by-merge", before=m0[-1], after=m1[-1]))
         if h1 != h0:
             oracle.append(dict(kind="source-files-changed-by-merge", changed=sorted(k for k in set(h0) | set(h1) if h0.get(k) != h1.get(k))))
-        src.close()
+        if pre == "live" and case.get("follow"):
+            # keep using the same object: what it shows must be what a fresh object shows
+            src.create_patch()
+            for op in case["follow"]:
+                if op[0] == "patch":
+                    src.commit_patch()
+                    src.create_patch()
+                else:
+                    H.apply_op(src, op)
+            d_live = H.dump(src)
+            src.commit_patch()
+            src.close()
+            fresh = cls(Path(src_dir) / "rec", "r")
+            d_fresh = H.dump(fresh)
+            fresh.close()
+            if d_live != d_fresh:
+                diff = sorted(p for p in set(d_live) | set(d_fresh) if d_live.get(p) != d_fresh.get(p))[:5]
+                oracle.append(dict(kind="still-open-source-shows-stale-view-after-merge", paths=diff))
+            # the follow-up patches are on disk now; drop them again so that the rest of the
+            # scenario (follow-up on a reopened source) starts from the merged state
+            for f in sorted(os.listdir(src_dir)):
+                if f not in h0:
+                    os.remove(os.path.join(src_dir, f))
+        else:
+            src.close()
         if _hashes(src_dir) != h0:
             oracle.append(dict(kind="source-files-changed-by-close-after-merge"))
 
@@ -160,6 +189,21 @@ def impl(case):
             try:
                 m2 = cls(Path(mdir) / "rec", "r")
                 dm2 = H.dump(m2)
+                # merging again (merged container + follow-up patches): still the same record state
+                rdir = os.path.join(tmp, "remerged")
+                os.makedirs(rdir)
+                try:
+                    m2.merge_files(Path(rdir) / "rec")
+                    m3 = cls(Path(rdir) / "rec", "r")
+                    mm2, mm3, dm3 = _meta(m2), _meta(m3), H.dump(m3)
+                    m3.close()
+                    if dm3 != dm2:
+                        oracle.append(dict(kind="remerged-view-differs"))
+                    if len(mm3) != 1 or mm3[0][:3] != mm2[-1][:3] or mm3[0][3] != mm2[0][3]:
+                        oracle.append(dict(kind="merged-userblock-wrong", merged=mm3[0] if mm3 else None, source_last=mm2[-1], source_first=mm2[0], remerge=True))
+                    tags.append("remerge")
+                except Exception as e:  # noqa: BLE001
+                    oracle.append(dict(kind="merge-of-committed-record-fails", error=type(e).__name__, remerge=True))
                 m2.close()
                 out += fout + [H.show_dump(dm2)]
                 if dm2 != dfull:
@@ -214,7 +258,7 @@ def gen_cases(ctx):
         ops = H.rand_history(rng, rng.randrange(4, 26), boundary_p=rng.choice([0.1, 0.2, 0.35]))
         follow = H.rand_history(rng, rng.randrange(1, 8), boundary_p=0.15) if rng.random() < 0.7 else []
         cases.append(dict(cls=rng.choice(["ih5", "mf"]), ops=ops, follow=follow, stub=rng.random() < 0.3,
-                          pre=rng.choice([None, None, "failed-commit", "discard"])))
+                          pre=rng.choice([None, None, "failed-commit", "discard", "live"])))
     return cases
 
 
